@@ -30,6 +30,8 @@ type pSite struct {
 }
 
 type pCtx struct {
+	opProps map[string][]string // operator contract name -> its props
+	curDelegProps []string
 	kc     *kernelCtx
 	units  map[string]*Unit
 	annots map[string]*Block // site annotations by site name
@@ -325,9 +327,14 @@ func runProtocol(kc *kernelCtx, blocks []*Block, only string, want map[string]bo
 	if on("C04") || on("C18") {
 		pc.p8Frames(only)
 	}
-	if on("C04") || on("C09") {
-		pc.d1Delegates(only)
+	pc.opProps = map[string][]string{}
+	for _, b := range blocks {
+		if b.Kind == "operator" {
+			pc.opProps[qualName(b)] = b.props()
+		}
 	}
+	pc.d1Delegates(only) // tagged with C04 and the properties of the canonical operator's contract; filtered by the caller
+
 	if on("C01") || on("C02") {
 		pc.f1Implementors()
 	}
